@@ -421,6 +421,14 @@ func (w *World) projectOracle(ctx sdk.Context) J {
 		}
 	}
 	out["hold"] = hold
+	holdw := J{}
+	if h := k.GetHolders(ctx); h != nil {
+		e18 := sdk.NewIntWithDecimal(1, 18)
+		for _, it := range h.List {
+			holdw[w.N.Name(it.Address)] = num(it.Value.Quo(e18))
+		}
+	}
+	out["holdw"] = holdw
 	atts := []interface{}{}
 	k.IterateAttestaions(ctx, func(_ []byte, att oracletypes.Attestation) bool {
 		voters := []interface{}{}
